@@ -175,6 +175,9 @@ def run(ck):
             reported.add(key)
             ck.violation(key, "scenario %s: the history of the real pool is not a behaviour of the model: %s; observed %s" % (name, why, ob), rep, found)
 
+    # a history that also shows the property failing on the implementation is the stronger report
+    ck.violations = [v for v in ck.violations if not (v[0].startswith("corr:") and v[0][5:] in reported)]
+
     ck.assumptions += [
         "M: the transition system of Model.lean is tied to ThreadPool.cxx/.ixx by trace validation: hooks (guard TFEL_VERIF_HOOKS) log one event per section made atomic by the pool's mutex (the log order is the lock order), task bodies and future reads are logged by the harness; every history must be accepted and the observed side effects / futures / wait() completeness must agree (differential testing over the schedules run, not proof)",
         "C++ memory model, std::mutex (atomic sections) and std::condition_variable (Mesa semantics, spurious wake-ups) are assumed; blocking is not modelled (safety only)",
